@@ -82,11 +82,28 @@ def main() -> int:
                 failed = re.findall(r"^(?:FAILED|ERROR) (\S+)", p.stdout, re.M)
                 conf["suite"] = tail
                 conf["suite_failed"] = failed
-                if failed and all(any(fl in f for fl in FLAKY) for f in failed):
-                    p2 = subprocess.run(["/venv/bin/python", "-m", "pytest", "-q", "-p", "no:cacheprovider", "--timeout=900"] + failed,
-                                        cwd=wt, env=env_for(wt), capture_output=True, text=True)
-                    conf["flaky_rerun_alone"] = p2.stdout.strip().splitlines()[-1] if p2.stdout.strip() else ""
-                    conf["suite_ok"] = p2.returncode == 0
+                if failed and len(failed) <= 8:
+                    # timing-dependent tests fail under load whatever the patch: a failed test counts only if it also fails when run alone (two attempts)
+                    still = failed
+                    for attempt in (1, 2):
+                        p2 = subprocess.run(["/venv/bin/python", "-m", "pytest", "-q", "-p", "no:cacheprovider", "--timeout=900"] + still,
+                                            cwd=wt, env=env_for(wt), capture_output=True, text=True)
+                        conf[f"rerun_alone_{attempt}"] = p2.stdout.strip().splitlines()[-1] if p2.stdout.strip() else ""
+                        still = re.findall(r"^(?:FAILED|ERROR) (\S+)", p2.stdout, re.M)
+                        if p2.returncode == 0 or not still:
+                            break
+                    conf["still_failing_alone"] = still
+                    if still and all(any(fl in f for fl in FLAKY) for f in still):
+                        # socket-timeout tests: compare with the clean tree under the same load
+                        subprocess.run(["git", "-C", wt, "apply", "-R", os.path.join(src, "patch.diff")], check=True)
+                        p3 = subprocess.run(["/venv/bin/python", "-m", "pytest", "-q", "-p", "no:cacheprovider", "--timeout=900"] + still,
+                                            cwd=wt, env=env_for(wt), capture_output=True, text=True)
+                        clean_fail = re.findall(r"^(?:FAILED|ERROR) (\S+)", p3.stdout, re.M)
+                        conf["same_tests_on_clean_tree_now"] = p3.stdout.strip().splitlines()[-1] if p3.stdout.strip() else ""
+                        subprocess.run(["git", "-C", wt, "apply", os.path.join(src, "patch.diff")], check=True)
+                        still = [t for t in still if t not in clean_fail]
+                        conf["failing_only_with_patch"] = still
+                    conf["suite_ok"] = not still
                 else:
                     conf["suite_ok"] = p.returncode == 0
             ok = rc0 == 0 and rc1 != 0 and conf["compiles"] and (not suite or conf["suite_ok"])
@@ -104,7 +121,7 @@ def main() -> int:
         if os.path.exists(os.path.join(dst, "meta.json")):
             old = json.load(open(os.path.join(dst, "meta.json"))).get("confirmation", {})
         if not suite and "suite" in old:  # keep an earlier suite result for the same patch
-            for k in ("suite", "suite_failed", "suite_ok", "flaky_rerun_alone"):
+            for k in ("suite", "suite_failed", "suite_ok", "rerun_alone_1", "rerun_alone_2", "still_failing_alone"):
                 if k in old:
                     conf[k] = old[k]
         meta["confirmation"] = conf
